@@ -2,329 +2,42 @@
 """
 Regenerate coq/Gen/*.v from the txtorcon sources (tie 1 of DESIGN.md).
 
+Every tools/gen_*.py module exposes GENERATORS = {GenFileName: function(repo_root) -> Coq text}.
+
 Fail-closed: any AST shape that is not recognised makes the corresponding Gen file
 contain `Definition gen_failed_<Name> : False := I.` which does not type-check, so
 nothing that depends on the table can be built from a stale copy.
 
 usage: pygen.py <repo-root> <coq-dir>
 """
-import ast
+import glob
+import importlib
 import os
 import sys
 
-
-class GenFail(Exception):
-    pass
-
-
-def need(cond, msg):
-    if not cond:
-        raise GenFail(msg)
+HERE = os.path.dirname(os.path.abspath(__file__))
+sys.path.insert(0, HERE)
+from pygen_common import GenFail  # noqa: E402
 
 
-def parse(repo, rel):
-    p = os.path.join(repo, rel)
-    with open(p, 'r', encoding='utf-8') as f:
-        return ast.parse(f.read(), filename=p)
-
-
-def find_class(tree, name):
-    for n in tree.body:
-        if isinstance(n, ast.ClassDef) and n.name == name:
-            return n
-    raise GenFail("class %s not found" % name)
-
-
-def find_func(node, name):
-    for n in node.body:
-        if isinstance(n, (ast.FunctionDef, ast.AsyncFunctionDef)) and n.name == name:
-            return n
-    raise GenFail("function %s not found" % name)
-
-
-def coq_string(s):
-    need(all(32 <= ord(c) < 127 for c in s), "non printable string %r" % s)
-    return '"' + s.replace('"', '""') + '"'
-
-
-def coq_list(items):
-    return '[' + '; '.join(items) + ']'
-
-
-# --------------------------------------------------------------------------- socks
-
-def _fmt_items(fmt):
-    """'!BBBB4sH' -> (net, [items]); '{}' marks the hole"""
-    net = False
-    if fmt.startswith('!'):
-        net = True
-        fmt = fmt[1:]
-    need(not fmt or fmt[0] not in '@=<>', "byte-order prefix %r" % fmt[:1])
-    items = []
-    i = 0
-    while i < len(fmt):
-        c = fmt[i]
-        if c == 'B':
-            items.append('FB')
-            i += 1
-        elif c == 'H':
-            items.append('FH')
-            i += 1
-        elif c == '{':
-            need(fmt[i:i + 3] == '{}s', "format hole in %r" % fmt)
-            items.append('FSlen')
-            i += 3
-        elif c.isdigit():
-            j = i
-            while j < len(fmt) and fmt[j].isdigit():
-                j += 1
-            need(j < len(fmt) and fmt[j] == 's', "count without s in %r" % fmt)
-            items.append('(FS %d)' % int(fmt[i:j]))
-            i = j + 1
-        else:
-            raise GenFail("format char %r in %r" % (c, fmt))
-    return net, items
-
-
-_VARS = {'host': 'v_host', 'port': 'v_port', 'encoded_host': 'v_addr', 'addr_type': 'v_addr_type'}
-
-
-def _xarg(a):
-    if isinstance(a, ast.Constant) and isinstance(a.value, int) and not isinstance(a.value, bool):
-        need(a.value >= 0, "negative constant")
-        return '(XConst %d)' % a.value
-    if isinstance(a, ast.IfExp):
-        need(isinstance(a.test, ast.Name) and a.test.id == 'is_v6', "IfExp test")
-        need(isinstance(a.body, ast.Constant) and isinstance(a.orelse, ast.Constant), "IfExp arms")
-        return '(XIfV6 %d %d)' % (a.body.value, a.orelse.value)
-    if isinstance(a, ast.Call) and isinstance(a.func, ast.Name) and a.func.id == 'len':
-        need(len(a.args) == 1 and isinstance(a.args[0], ast.Name) and a.args[0].id == 'host', "len() arg")
-        return 'XLenHost'
-    if isinstance(a, ast.Call) and isinstance(a.func, ast.Name) and a.func.id == 'inet_pton':
-        # inet_pton(AF_INET6 if is_v6 else AF_INET, host)
-        need(len(a.args) == 2, "inet_pton arity")
-        fam = a.args[0]
-        need(isinstance(fam, ast.IfExp) and isinstance(fam.test, ast.Name) and fam.test.id == 'is_v6'
-             and isinstance(fam.body, ast.Name) and fam.body.id == 'AF_INET6'
-             and isinstance(fam.orelse, ast.Name) and fam.orelse.id == 'AF_INET', "inet_pton family")
-        need(isinstance(a.args[1], ast.Name) and a.args[1].id == 'host', "inet_pton host")
-        return '(XVar v_addr)'
-    if isinstance(a, ast.Name) and a.id in _VARS:
-        return '(XVar %s)' % _VARS[a.id]
-    raise GenFail("struct.pack argument %s" % ast.dump(a))
-
-
-def _packer(call):
-    need(len(call.args) >= 1, "struct.pack without format")
-    f = call.args[0]
-    hole = 'None'
-    if isinstance(f, ast.Constant) and isinstance(f.value, str):
-        fmt = f.value
-    elif (isinstance(f, ast.Call) and isinstance(f.func, ast.Attribute) and f.func.attr == 'format'
-          and isinstance(f.func.value, ast.Constant) and isinstance(f.func.value.value, str)):
-        fmt = f.func.value.value
-        need(len(f.args) == 1 and isinstance(f.args[0], ast.Call) and isinstance(f.args[0].func, ast.Name)
-             and f.args[0].func.id == 'len' and isinstance(f.args[0].args[0], ast.Name), "format() argument")
-        nm = f.args[0].args[0].id
-        need(nm in _VARS, "format() len of %s" % nm)
-        hole = '(Some %s)' % _VARS[nm]
-    else:
-        raise GenFail("struct.pack format %s" % ast.dump(f))
-    net, items = _fmt_items(fmt)
-    need(('FSlen' in items) == (hole != 'None'), "hole/format mismatch")
-    args = [_xarg(a) for a in call.args[1:]]
-    need(not call.keywords, "struct.pack keywords")
-    return '{| p_net := %s; p_items := %s; p_hole_is_len_of := %s; p_args := %s |}' % (
-        'true' if net else 'false', coq_list(items), hole, coq_list(args))
-
-
-def _pack_calls(fn):
-    out = []
-    for n in ast.walk(fn):
-        if (isinstance(n, ast.Call) and isinstance(n.func, ast.Attribute) and n.func.attr == 'pack'
-                and isinstance(n.func.value, ast.Name) and n.func.value.id == 'struct'):
-            out.append(n)
-    out.sort(key=lambda n: (n.lineno, n.col_offset))
-    return out
-
-
-def _isinstance_class(test):
-    """isinstance(self._addr, X) -> description of X"""
-    need(isinstance(test, ast.Call) and isinstance(test.func, ast.Name) and test.func.id == 'isinstance'
-         and len(test.args) == 2, "isinstance test")
-    x = test.args[1]
-    if isinstance(x, ast.Name):
-        return x.id
-    if isinstance(x, ast.Attribute) and isinstance(x.value, ast.Name):
-        return x.value.id + '.' + x.attr
-    if isinstance(x, ast.Tuple):
-        return '(' + ','.join(_isinstance_class(ast.Call(func=ast.Name(id='isinstance'), args=[None, e], keywords=[]))
-                              for e in x.elts) + ')'
-    raise GenFail("isinstance class")
-
-
-def _host_encoding(fn):
-    """the codec used by `host = ....encode(<codec>)` in a sender; '' when encode() has no argument"""
-    for n in ast.walk(fn):
-        if (isinstance(n, ast.Assign) and len(n.targets) == 1 and isinstance(n.targets[0], ast.Name)
-                and n.targets[0].id == 'host' and isinstance(n.value, ast.Call)
-                and isinstance(n.value.func, ast.Attribute) and n.value.func.attr == 'encode'):
-            if not n.value.args:
-                return 'utf8'
-            a = n.value.args[0]
-            need(isinstance(a, ast.Constant) and a.value in ('ascii', 'utf-8', 'utf8'), "codec")
-            return 'ascii' if a.value == 'ascii' else 'utf8'
-    raise GenFail("no host encode in %s" % fn.name)
-
-
-def gen_socks_consts(repo):
-    tree = parse(repo, 'txtorcon/socks.py')
-    cls = find_class(tree, '_SocksMachine')
-    L = ['(* GENERATED by tools/pygen.py from txtorcon/socks.py -- do not edit *)',
-         'From Coq Require Import List NArith String.',
-         'From TxVerif Require Import Model.Struct.',
-         'Import ListNotations.', 'Open Scope N_scope.', '']
-    c = _pack_calls(find_func(cls, '_send_version'))
-    need(len(c) == 1, "_send_version packs")
-    L.append('Definition pk_version : packer := %s.' % _packer(c[0]))
-    fn = find_func(cls, '_send_connect_request')
-    c = _pack_calls(fn)
-    need(len(c) == 2, "_send_connect_request packs")
-    # first pack must sit in the body of `if isinstance(self._addr, (IPv4Address, IPv6Address))`
-    top_if = [s for s in fn.body if isinstance(s, ast.If)]
-    need(len(top_if) == 1, "connect: one if")
-    need(_isinstance_class(top_if[0].test) == '(IPv4Address,IPv6Address)', "connect: ip test")
-    body_calls = [n for s in top_if[0].body for n in ast.walk(s) if n in c]
-    else_calls = [n for s in top_if[0].orelse for n in ast.walk(s) if n in c]
-    need(len(body_calls) == 1 and len(else_calls) == 1, "connect: pack placement")
-    isv6 = [s for s in top_if[0].body if isinstance(s, ast.Assign) and isinstance(s.targets[0], ast.Name)
-            and s.targets[0].id == 'is_v6']
-    need(len(isv6) == 1 and _isinstance_class(isv6[0].value) == 'IPv6Address', "connect: is_v6")
-    L.append('Definition pk_connect_ip : packer := %s.' % _packer(body_calls[0]))
-    L.append('Definition pk_connect_host : packer := %s.' % _packer(else_calls[0]))
-    enc_fn = ast.Module(body=top_if[0].orelse, type_ignores=[])
-    enc_fn.name = '_send_connect_request(else)'
-    L.append('Definition connect_host_ascii_only : bool := %s.' %
-             ('true' if _host_encoding(enc_fn) == 'ascii' else 'false'))
-    fn = find_func(cls, '_send_resolve_request')
-    c = _pack_calls(fn)
-    need(len(c) == 1, "_send_resolve_request packs")
-    L.append('Definition pk_resolve : packer := %s.' % _packer(c[0]))
-    L.append('Definition resolve_host_ascii_only : bool := %s.' %
-             ('true' if _host_encoding(fn) == 'ascii' else 'false'))
-    fn = find_func(cls, '_send_resolve_ptr_request')
-    c = _pack_calls(fn)
-    need(len(c) == 1, "_send_resolve_ptr_request packs")
-    L.append('Definition pk_resolve_ptr : packer := %s.' % _packer(c[0]))
-    # addr_type / encoded_host selection
-    ifs = [s for s in fn.body if isinstance(s, ast.If)]
-    if ifs:
-        need(len(ifs) == 1, "ptr: one if")
-        klass = _isinstance_class(ifs[0].test)
-
-        def consts(stmts):
-            at = None
-            enc = None
-            for s in stmts:
-                need(isinstance(s, ast.Assign) and len(s.targets) == 1 and isinstance(s.targets[0], ast.Name),
-                     "ptr: statement")
-                if s.targets[0].id == 'addr_type':
-                    need(isinstance(s.value, ast.Constant), "ptr: addr_type value")
-                    at = s.value.value
-                elif s.targets[0].id == 'encoded_host':
-                    need(isinstance(s.value, ast.Call) and isinstance(s.value.func, ast.Name), "ptr: encoder")
-                    enc = s.value.func.id
-                    if enc == 'inet_pton':
-                        need(isinstance(s.value.args[0], ast.Name), "ptr: family")
-                        enc += ':' + s.value.args[0].id
-                else:
-                    raise GenFail("ptr: assignment to %s" % s.targets[0].id)
-            need(at is not None and enc is not None, "ptr: both assignments")
-            return at, enc
-        a1, e1 = consts(ifs[0].body)
-        a2, e2 = consts(ifs[0].orelse)
-    else:
-        # addr_type = A if isinstance(...) else B ; encoded_host = f(...)
-        at = [s for s in fn.body if isinstance(s, ast.Assign) and s.targets[0].id == 'addr_type']
-        en = [s for s in fn.body if isinstance(s, ast.Assign) and s.targets[0].id == 'encoded_host']
-        need(len(at) == 1 and len(en) == 1 and isinstance(at[0].value, ast.IfExp), "ptr: flat shape")
-        klass = _isinstance_class(at[0].value.test)
-        a1, a2 = at[0].value.body.value, at[0].value.orelse.value
-        need(isinstance(en[0].value, ast.Call) and isinstance(en[0].value.func, ast.Name), "ptr: encoder")
-        e1 = e2 = en[0].value.func.id
-    # which targets take the first arm: Twisted address classes only
-    arm = {'IPv6Address': 'ArmV6', 'IPv4Address': 'ArmV4'}.get(klass, 'ArmNever')
-    encs = {'inet_pton:AF_INET6': 'EncV6', 'inet_aton': 'EncV4', 'inet_pton:AF_INET': 'EncV4'}
-    need(e1 in encs and e2 in encs, "ptr: encoder names %s %s" % (e1, e2))
-    L.append('Definition ptr_first_arm : ptr_arm := %s.' % arm)
-    L.append('Definition ptr_first : N * ptr_enc := (%d, %s).' % (a1, encs[e1]))
-    L.append('Definition ptr_else : N * ptr_enc := (%d, %s).' % (a2, encs[e2]))
-    # error classes
-    errs = []
-    for n in tree.body:
-        if isinstance(n, ast.ClassDef) and any(isinstance(b, ast.Name) and b.id == 'SocksError' for b in n.bases):
-            code = None
-            for s in n.body:
-                if isinstance(s, ast.Assign) and s.targets[0].id == 'code':
-                    need(isinstance(s.value, ast.Constant) and isinstance(s.value.value, int), "error code")
-                    code = s.value.value
-            need(code is not None, "error class %s without code" % n.name)
-            errs.append('(%d, %s)' % (code, coq_string(n.name)))
-    need(errs, "no error classes")
-    L.append('Definition socks_error_classes : list (N * string) := %s%%string.' % coq_list(errs))
-    for nm in ('SUCCEEDED', 'REPLY_IPV4', 'REPLY_HOST', 'REPLY_IPV6'):
-        vals = [s.value.value for s in cls.body if isinstance(s, ast.Assign) and isinstance(s.targets[0], ast.Name)
-                and s.targets[0].id == nm and isinstance(s.value, ast.Constant)]
-        need(len(vals) == 1, nm)
-        L.append('Definition c_%s : N := %d.' % (nm, vals[0]))
-    return '\n'.join(L) + '\n'
-
-
-def gen_socks_table(repo):
-    tree = parse(repo, 'txtorcon/socks.py')
-    cls = find_class(tree, '_SocksMachine')
-    rows = []
-    initial = []
-    for n in cls.body:
-        if isinstance(n, ast.FunctionDef):
-            for d in n.decorator_list:
-                if (isinstance(d, ast.Call) and isinstance(d.func, ast.Attribute) and d.func.attr == 'state'):
-                    for k in d.keywords:
-                        if k.arg == 'initial' and isinstance(k.value, ast.Constant) and k.value.value is True:
-                            initial.append(n.name)
-        if isinstance(n, ast.Expr) and isinstance(n.value, ast.Call) and isinstance(n.value.func, ast.Attribute) \
-                and n.value.func.attr == 'upon':
-            c = n.value
-            need(isinstance(c.func.value, ast.Name) and len(c.args) == 1 and isinstance(c.args[0], ast.Name), "upon shape")
-            kw = {k.arg: k.value for k in c.keywords}
-            need(set(kw) == {'enter', 'outputs'}, "upon keywords")
-            need(isinstance(kw['enter'], ast.Name) and isinstance(kw['outputs'], ast.List)
-                 and all(isinstance(e, ast.Name) for e in kw['outputs'].elts), "upon values")
-            rows.append('{| t_from := %s; t_on := %s; t_to := %s; t_out := %s |}' % (
-                c.func.value.id, c.args[0].id, kw['enter'].id, coq_list([e.id for e in kw['outputs'].elts])))
-    need(len(initial) == 1 and rows, "automat table")
-    L = ['(* GENERATED by tools/pygen.py from txtorcon/socks.py -- do not edit *)',
-         'From Coq Require Import List.', 'From TxVerif Require Import Model.SocksTypes.',
-         'Import ListNotations.', '',
-         'Definition socks_initial : sstate := %s.' % initial[0],
-         'Definition socks_table : list strans :=', '  [ ' + '\n  ; '.join(rows) + ' ].']
-    return '\n'.join(L) + '\n'
-
-
-GENERATORS = {
-    'SocksConsts': gen_socks_consts,
-    'SocksTable': gen_socks_table,
-}
+def generators():
+    gens = {}
+    for p in sorted(glob.glob(os.path.join(HERE, 'gen_*.py'))):
+        mod = importlib.import_module(os.path.basename(p)[:-3])
+        for k, v in mod.GENERATORS.items():
+            assert k not in gens, k
+            gens[k] = v
+    return gens
 
 
 def main():
     repo, coqdir = sys.argv[1], sys.argv[2]
     os.makedirs(os.path.join(coqdir, 'Gen'), exist_ok=True)
     failed = []
-    for name, fn in sorted(GENERATORS.items()):
+    for name, fn in sorted(generators().items()):
         try:
             text = fn(repo)
-        except (GenFail, SyntaxError, OSError, AttributeError, IndexError, KeyError, TypeError) as e:
+        except (GenFail, SyntaxError, OSError, AttributeError, IndexError, KeyError, TypeError, ValueError) as e:
             failed.append((name, repr(e)))
             text = '(* GENERATION FAILED: %s *)\nDefinition gen_failed_%s : False := I.\n' % (
                 repr(e).replace('*)', '* )'), name)
